@@ -282,6 +282,9 @@ public:
     //! \brief Add a new tensor to the candidates, with the given \b weight and using \b getNumPoints() to define the associated nodes.
     void addTensor(const int *tensor, std::function<int(int)> getNumPoints, double weight);
 
+    //! \brief Re-create the tensors of the stored samples that no current tensor covers, i.e., the ones dropped by clearTesnors(), using \b getLevels() to map a node to its tensor.
+    void addTensorsOfStoredNodes(std::function<std::vector<int>(std::vector<int> const &)> getLevels, std::function<int(int)> getNumPoints);
+
     //! \brief Get the node indexes of the points associated with the candidate tensors, the order is the same as the tensors sorted by ascending weight.
     MultiIndexSet getNodesIndexes();
 
